@@ -125,6 +125,26 @@ func c20Scenarios(tier string) []*Scenario {
 		sc.Name = "stale-reader|" + rpcName(sc.RPCs[0]) + " >> " + rpcName(sc.RPCs[1])
 		out = append(out, sc)
 	}
+	// a stream opened from inside a handler with that handler's context (a relay): the same one slot per
+	// direction, whoever the caller is
+	for _, inner := range []RPC{
+		{Kind: "bd", Handler: []string{"w", "ret:ctx"}},
+		{Kind: "bd", Handler: []string{"r", "w", "ret:ctx"}},
+		{Kind: "cs", Handler: []string{"w", "ret:ctx"}},
+	} {
+		for _, outerKind := range []string{"unary", "bd"} {
+			outer := RPC{Kind: "bd", Client: []string{"S0", "C", "R*"}, Handler: []string{"r", "N1", "ret:ok"}}
+			if outerKind == "unary" {
+				outer = RPC{Kind: "unary", Client: []string{"I"}, Handler: []string{"dec", "N1", "ret:ok"}}
+			}
+			in := inner
+			in.Client = []string{"S0", "S1", "S2"}
+			in.Nested = true
+			sc := &Scenario{Prop: "C20", Transport: "inproc", Bound: -1, RPCs: []RPC{outer, in}}
+			sc.Name = "relay|" + rpcName(outer) + " >> " + rpcName(in)
+			out = append(out, sc)
+		}
+	}
 	return out
 }
 
@@ -221,6 +241,13 @@ func c20Oracle(sc *Scenario, rec *Rec, s *mc.Sched) []mc.Violation {
 		}
 		if countOp(rpc.Client, "R") > 0 && len(rr.CliRecv) > 0 && rr.CliRecv[0] != tag(0, "s", 0) {
 			out = append(out, mc.Violation{Clause: "first-message-lost", Obs: fmt.Sprintf("the first receive after the Header() calls returned %s", rr.CliRecv[0])})
+		}
+	case "relay":
+		r1 := rec.RPCs[1]
+		for _, m := range r1.Monitor {
+			if strings.HasPrefix(m, "backpressure:") {
+				out = append(out, mc.Violation{Clause: "run-ahead", Obs: "call made by a handler: " + m[len("backpressure:"):], Detail: r1})
+			}
 		}
 	case "stale-reader":
 		r1 := rec.RPCs[1]
